@@ -7,8 +7,28 @@ from .chartrules import ChartRules
 from .dispatch import check_dispatcher, check_track_sections
 
 
-def check_chain(ctx, r, which, strict=True):
-    """which: 'instrument' | 'sync' | 'global' | 'song' | 'all'"""
+NQ = "chartparse.instrument.NoteEvent.ParsedData"
+SQ = "chartparse.instrument.StarPowerEvent.ParsedData"
+BQ = "chartparse.sync.BPMEvent.ParsedData"
+
+
+def check_chain(ctx, r, which, strict=True, recognisers=(), safe_skip=True):
+    """which: 'instrument' | 'sync' | 'global' | 'song' | 'all'.
+    recognisers: line kinds whose every canonical line the calling property observes (a canonical line dropped as unparsable, or
+    decoded to other integers, changes what the property talks about): acceptance of the canonical language, capture
+    exactness and group contents of that kind's recogniser.
+    safe_skip: trying a kind on a line can only succeed or raise RegexNotMatchError (anything else aborts the section instead of
+    offering the line to the next kind): every partial operation reachable from the dispatcher is discharged."""
+    from .decode import check_from_chart_line
+    from .lang import check_line_recogniser
+    for cq in recognisers:
+        info = check_from_chart_line(ctx, r, cq)
+        if info is not None:
+            check_line_recogniser(ctx, cq, info, r, r, r, only={"canon", "capture", "groups"})
+    if safe_skip and which != "song":
+        from .partial import check_partial_scope
+        from .dispatch import PARSE
+        check_partial_scope(ctx, r, [PARSE])
     C = ChartRules(ctx)
     C.check_reading(r)
     C.check_framing(r)
